@@ -1,8 +1,8 @@
 #!/usr/bin/env python3
-"""Self-test of the round-7 translators (`containers` -> C12Gen, `reasoningN` -> C02Gen, `wiring` -> C13Gen) on edited *copies* of the
+"""Self-test of the round-7 translators (`containers` -> C12Gen, `reasoningN` -> C02Gen, `wiring` -> C13Gen, `ringslots` -> C05Gen) on edited *copies* of the
 sources — never touches /repo or /verif/lean:
 
-    python3 tools/test_rs2lean_round7.py [--repo /repo] [--only containers|reasoningN|wiring]
+    python3 tools/test_rs2lean_round7.py [--repo /repo] [--only containers|reasoningN|wiring|ringslots]
 
 A scratch copy of the source tree (git worktree-free: the files are copied) and of the Lean project (with its build output, so that
 only the touched modules are rebuilt) is made under a temporary directory; for every edit the translator is run on the copy and the
@@ -22,6 +22,7 @@ IN = 'deep_causality/src/extensions/inferable/mod.rs'
 MC = 'deep_causality_macros/src/collections.rs'
 GR = 'deep_causality/src/protocols/causable_graph/graph_reasoning.rs'
 BU = 'dcl_data_structures/src/ring_buffer/dsl/rust_disruptor_builder.rs'
+RBF = 'dcl_data_structures/src/ring_buffer/ringbuffer/const_array_ring_buffer.rs'
 PUSH_LOOP = "        let mut all: Vec<&T> = Vec::new();\n        for item in self {\n            all.push(&item)\n        }\n        all\n"
 DEQ_TOVEC = ("        let mut v = Vec::with_capacity(self.len());\n        let mut deque = self.clone(); // clone to avoid mutating the original\n\n"
              "        for item in deque.make_contiguous().iter() {\n            v.push(item.clone());\n        }\n\n        v\n")
@@ -88,6 +89,19 @@ EDITS = {
         ('BREAK', 'producer gated by the last handler only (refused)', BU,
          "        for gs in &self.gating_sequences {\n            self.with_sequencer.sequencer.add_gating_sequence(gs);\n        }",
          "        if let Some(gs) = self.gating_sequences.last() {\n            self.with_sequencer.sequencer.add_gating_sequence(gs);\n        }"),
+    ]),
+    'ringslots': ('DcVerif.Props.C05Gen', [
+        ('QUIET', 'operands of & swapped', RBF,
+         "    unsafe fn get_mut(&self, sequence: Sequence) -> &mut T {\n        let index = sequence as usize & self.mask;",
+         "    unsafe fn get_mut(&self, sequence: Sequence) -> &mut T {\n        let index = self.mask & sequence as usize;"),
+        ('BREAK', 'mask = N', RBF, "RingBuffer { data, mask: N - 1 }", "RingBuffer { data, mask: N }"),
+        ('BREAK', 'reader addresses the next slot', RBF,
+         "    unsafe fn get(&self, sequence: Sequence) -> &T {\n        let index = sequence as usize & self.mask;",
+         "    unsafe fn get(&self, sequence: Sequence) -> &T {\n        let index = (sequence as usize + 1) & self.mask;"),
+        ('BREAK', 'guard also accepts 12', RBF, "(N != 0) && ((N & (N - 1)) == 0)", "(N != 0) && ((N & (N - 1)) == 0 || N == 12)"),
+        ('BREAK', 'index by remainder of the mask (refused or broken)', RBF,
+         "    unsafe fn get(&self, sequence: Sequence) -> &T {\n        let index = sequence as usize & self.mask;",
+         "    unsafe fn get(&self, sequence: Sequence) -> &T {\n        let index = sequence as usize % self.mask;"),
     ]),
 }
 
